@@ -19,7 +19,8 @@ NOT_UNDER_CONTRACT = [
 
 def units(tier):
     from contracts import bookkeeping, queries, walk
-    return bookkeeping.units() + walk.units() + queries.units() + useractions.units(UA_ALL) + useractions.units(UA_ALL, {"lineage_inv": True}) + primitives.units(names=["AddNodeC", "DeleteNodeC"])
+    from contracts import bulkids
+    return bulkids.units() + bookkeeping.units() + walk.units() + queries.units() + useractions.units(UA_ALL) + useractions.units(UA_ALL, {"lineage_inv": True}) + primitives.units(names=["AddNodeC", "DeleteNodeC"])
 
 
 def bounded(tier, seed):
